@@ -893,19 +893,61 @@ def trim_allocation(prog, rep):
         pair = {l_["name"], r_["name"]}
         compared = any(n["k"] == "bin" and n["op"] in ("<", "<=", ">", ">=", "==", "!=") and {guards.key(n["l"]), guards.key(n["r"])} == pair
                        for blk in fn.blocks.values() if blk.cond is not None for n in walk(blk.cond))
-        if not compared:
+        escaped = any(n["k"] == "un" and n.get("op") == "&" and strip_casts(n["e"]) is not None and strip_casts(n["e"])["k"] == "ref" and strip_casts(n["e"])["name"] in pair
+                      for (b2, i2, n) in fn.nodes(elsewhere=True))
+        if not compared or escaped:
             continue
         judged.append((c, l_["name"], r_["name"], k_))
     for (c, a, b_, k_) in judged:
         bad = []
+        floor_ = 1 - k_ - 1          # below this the distance no longer matters: forget it (keeps the walk finite in `--a` loops)
 
-        def on_stmt(st, blk, i, stmt, c=c, a=a, b_=b_, k_=k_):
+        def best(d, facts, a=a, b_=b_):
+            f = _diff_at_least(a, b_, facts)
+            if f is not None and (d is None or f > d):
+                d = f
+            return None if (d is not None and d < floor_) else d
+
+        def shift(d, stmt, a=a, b_=b_):
+            """the carried lower bound of a - b across one statement: cursor steps move it, any other store to a cursor drops it"""
+            for n in walk(stmt):
+                tgt = delta = None
+                if n["k"] == "un" and ("++" in n.get("op", "") or "--" in n.get("op", "")):
+                    t = strip_casts(n["e"])
+                    if t is not None and t["k"] == "ref" and t["name"] in (a, b_):
+                        tgt, delta = t["name"], (1 if "++" in n["op"] else -1)
+                elif n["k"] == "asg":
+                    t = strip_casts(n["l"])
+                    if t is not None and t["k"] == "ref" and t["name"] in (a, b_):
+                        tgt = t["name"]
+                        if n.get("op") in ("+=", "-=") and cv(n["r"]) is not None:
+                            delta = cv(n["r"]) if n["op"] == "+=" else -cv(n["r"])
+                        else:
+                            r = strip_casts(n["r"])
+                            if n.get("op") == "=" and r is not None and r["k"] == "bin" and r["op"] in ("+", "-") and guards.key(r["l"]) == tgt and cv(r["r"]) is not None:
+                                delta = cv(r["r"]) if r["op"] == "+" else -cv(r["r"])
+                if tgt is None:
+                    continue
+                if delta is None or d is None:
+                    d = None
+                else:
+                    d = d + delta if tgt == a else d - delta
+            return d
+
+        def on_stmt(st, blk, i, stmt, c=c, k_=k_):
+            facts, d = st
             if any(x is c for x in calls(stmt)):
-                d = _diff_at_least(a, b_, st)
-                if d is None or d + k_ < 1:
+                d2 = best(d, facts)
+                if d2 is None or d2 + k_ < 1:
                     bad.append(line(c))
-            return [guards.transfer(st, stmt)]
-        Flow(fn, [guards.EMPTY], on_stmt, lambda st, blk, to, on: guards.edge_assume(st, blk, on)).run()
+            d = shift(d, stmt)
+            f2 = guards.transfer(facts, stmt)
+            return [(f2, best(d, f2))]
+
+        def on_edge(st, blk, to, on):
+            f2 = guards.edge_assume(st[0], blk, on)
+            return None if f2 is None else (f2, best(st[1], f2))
+        Flow(fn, [(guards.EMPTY, None)], on_stmt, on_edge).run()
         rep.ob("C16.7", fn, "trim:sized", not bad,
                "the result is sized (%s - %s) + %d and every path to the allocation has ordered the two cursors: at least one byte" % (a, b_, k_) if not bad else
                "line %d: the result is sized (%s - %s) + %d, but a path reaches the allocation on which no test orders %s and %s: for an all-blank string the "
@@ -922,6 +964,11 @@ SELFTEST = [
     dict(id="strchomp-nested-positive-form-neutral", file="src/pstring.c", expect=None,
          old="\tif (pos_end < pos_start)\n\t\treturn p_strdup (\"\\0\");\n\n\tif (pos_end == pos_start && isspace (* ((const puchar *) (str + pos_end))))\n\t\treturn p_strdup (\"\\0\");",
          new="\tif (!(pos_end >= pos_start))\n\t\treturn p_strdup (\"\\0\");\n\telse if (pos_end == pos_start && isspace (* ((const puchar *) (str + pos_end))))\n\t\treturn p_strdup (\"\\0\");"),
+    dict(id="strchomp-exclusive-end-neutral", file="src/pstring.c", expect=None,
+         old="\tstr_len = (psize) (pos_end - pos_start + 2);", new="\t++pos_end;\n\tstr_len = (psize) (pos_end - pos_start + 1);"),
+    dict(id="strchomp-exclusive-end-after-narrowed-test", expect="C16.7", edits=[
+        dict(file="src/pstring.c", old="\tif (pos_end < pos_start)\n\t\treturn p_strdup (\"\\0\");", new="\tif (pos_end < 0)\n\t\treturn p_strdup (\"\\0\");"),
+        dict(file="src/pstring.c", old="\tstr_len = (psize) (pos_end - pos_start + 2);", new="\t++pos_end;\n\tstr_len = (psize) (pos_end - pos_start + 1);")]),
     dict(id="strchomp-order-test-swapped-neutral", file="src/pstring.c", expect=None,
          old="\tif (pos_end < pos_start)\n\t\treturn p_strdup (\"\\0\");", new="\tif (pos_start > pos_end)\n\t\treturn p_strdup (\"\\0\");"),
     dict(id="line-clamp-one-short", file="src/pinifile.c", expect="C16.1", count=1,
